@@ -2,6 +2,7 @@ package checks
 
 import (
 	"fmt"
+	"os"
 	"math/big"
 	"strings"
 	"time"
@@ -38,13 +39,28 @@ func contractEconomy(ev *vlib.Evidence, prop, driver string, idx int) {
 	wc := vlib.NewIdentity("ce-wallet-client", idx%7)
 	wc2 := vlib.NewIdentity("ce-wallet-client2", idx%7)
 	wh := vlib.NewIdentity("ce-wallet-hosts", idx%7)
+	wt := vlib.NewIdentity("ce-wallet-timelocked", idx%7) // its owner has started the unilateral exit: the deposit is time-locked
 	price := big.NewInt(int64(vlib.Pick(r, 60000, 6000000, 600000000)))
 	perSec := new(big.Int).Div(price, big.NewInt(60))
 	var minBal *big.Int
 	if r.Intn(3) == 0 {
 		minBal = new(big.Int).Mul(perSec, big.NewInt(int64(vlib.Pick(r, 0, 50, 400))))
 	}
-	w, err := vlib.NewWorld(vlib.WorldOptions{Driver: driver, Price: price, Interval: time.Minute, MinBalance: minBal, WithPayment: true, Contract: true, ContractWallets: []*vlib.Identity{wc, wc2, wh}})
+	useTimelocked := r.Intn(4) == 0
+	pre := func(env *vlib.ContractEnv) {
+		if !useTimelocked {
+			return
+		}
+		// before the pool started: a deposit, and its owner's unilateral exit (the deposit is time-locked)
+		if err := env.Deposit(wt, new(big.Int).Mul(perSec, big.NewInt(300))); err != nil {
+			useTimelocked = false
+			return
+		}
+		if err := env.ForceSettle(wt); err != nil {
+			useTimelocked = false
+		}
+	}
+	w, err := vlib.NewWorld(vlib.WorldOptions{Driver: driver, Price: price, Interval: time.Minute, MinBalance: minBal, WithPayment: true, Contract: true, ContractWallets: []*vlib.Identity{wc, wc2, wh, wt}, ContractPre: pre})
 	if err != nil {
 		fmt.Println("HARNESS-ERROR contract world:", err)
 		ev.Inconclusive("contract-world")
@@ -77,6 +93,7 @@ func contractEconomy(ev *vlib.Evidence, prop, driver string, idx int) {
 	if r.Intn(2) == 0 {
 		dep(wh, 500)
 	}
+
 	h1, h2 := vlib.NewIdentity("ce-host", (idx*2)%23), vlib.NewIdentity("ce-host", (idx*2+1)%23)
 	client := vlib.NewIdentity("ce-client", idx%11)
 	for i, h := range []*vlib.Identity{h1, h2} {
@@ -92,7 +109,7 @@ func contractEconomy(ev *vlib.Evidence, prop, driver string, idx int) {
 		return
 	}
 	// model: credit per ledger entry; deposits are read from the chain
-	credit := map[string]*big.Int{"acct:" + wc.Wallet: new(big.Int), "acct:" + wc2.Wallet: new(big.Int), "acct:" + wh.Wallet: new(big.Int), "trial:" + h2.NodeID: new(big.Int)}
+	credit := map[string]*big.Int{"acct:" + wc.Wallet: new(big.Int), "acct:" + wc2.Wallet: new(big.Int), "acct:" + wh.Wallet: new(big.Int), "acct:" + wt.Wallet: new(big.Int), "trial:" + h2.NodeID: new(big.Int)}
 	settledCredit := new(big.Int)
 	clientAcct := "" // the client starts on a trial balance
 	credit["trial:"+client.NodeID] = new(big.Int)
@@ -138,7 +155,7 @@ func contractEconomy(ev *vlib.Evidence, prop, driver string, idx int) {
 	}
 	spendable := func(key string) *big.Int {
 		d := new(big.Int)
-		if strings.HasPrefix(key, "acct:") {
+		if strings.HasPrefix(key, "acct:") && key[5:] != wt.Wallet {
 			if v, err := w.Contract.AwaitDeposit(key[5:]); err == nil {
 				d = v
 			}
@@ -160,7 +177,13 @@ func contractEconomy(ev *vlib.Evidence, prop, driver string, idx int) {
 	steps := 4 + r.Intn(6)
 	billed := 0
 	for s := 0; s < steps && !failed; s++ {
-		switch k := r.Intn(10); {
+		k := r.Intn(10)
+		if useTimelocked && s == 0 {
+			k = 5 // link (to the time-locked wallet) ...
+		} else if useTimelocked && s == 1 {
+			k = 0 // ... and a billed keep-alive right after
+		}
+		switch {
 		case k < 5:
 			// billed keep-alive
 			n0, gerr := w.RawStore.GetNode(store.NodeID(client.NodeID))
@@ -180,6 +203,12 @@ func contractEconomy(ev *vlib.Evidence, prop, driver string, idx int) {
 			after := spendable(ck)
 			trace = append(trace, fmt.Sprintf("keep-alive elapsed=%s per-host=%s -> err=%v (spendable after %s)", elapsed, per, uerr, after))
 			below := minBal != nil && after.Cmp(minBal) < 0
+			if uerr != nil && clientAcct == wt.Wallet && strings.Contains(uerr.Error(), "timelocked") {
+				// the balance cannot be reported, but what was billed was billed: the ledger must still add up
+				ev.Count("contract-economy-timelocked-keepalives", 1)
+				checkLedger("keep-alive-timelocked")
+				continue
+			}
 			if uerr != nil && !strings.Contains(uerr.Error(), "low balance") {
 				if is("C02", "C03") {
 					fail("keep-alive-failed", map[string]interface{}{"err": uerr.Error()})
@@ -203,6 +232,9 @@ func contractEconomy(ev *vlib.Evidence, prop, driver string, idx int) {
 			target := wc
 			if clientAcct == wc.Wallet || (clientAcct == "" && r.Intn(3) == 0) {
 				target = wc2
+			}
+			if useTimelocked && clientAcct != wt.Wallet && (s == 0 || r.Intn(2) == 0) {
+				target = wt
 			}
 			if clientAcct == target.Wallet {
 				continue
@@ -233,6 +265,19 @@ func contractEconomy(ev *vlib.Evidence, prop, driver string, idx int) {
 				settledCredit.Add(settledCredit, credit[key])
 				credit[key] = new(big.Int)
 			}
+			settleFailed := werr != nil && len(log) == before+1 && log[len(log)-1].Err != ""
+			if settleFailed {
+				// the chain refused the settlement (e.g. the contract cannot cover the payout):
+				// nothing is paid and the balance is unchanged
+				ev.Count("contract-economy-settlements-refused-by-the-chain", 1)
+				if is("C07") {
+					if left := spendable(key); left.Cmp(bal) != 0 {
+						fail("failed-settlement-changed-balance", map[string]interface{}{"before": bal.String(), "after": left.String(), "err": werr.Error()})
+					}
+				}
+				checkLedger("failed-settlement")
+				continue
+			}
 			if is("C07") {
 				switch {
 				case eligible && werr != nil:
@@ -260,6 +305,9 @@ func contractEconomy(ev *vlib.Evidence, prop, driver string, idx int) {
 	}
 	ev.Case(desc+" "+strings.Join(trace, ";"), billed > 0)
 	ev.Count("contract-economy-sessions", 1)
+	if useTimelocked && os.Getenv("VERIF_DEBUG_CONTRACT") != "" {
+		fmt.Println("DEBUG timelocked:", strings.Join(trace, " | "))
+	}
 	ev.Count("contract-economy-billed-keepalives", int64(billed))
 	if idx == 0 {
 		ev.Sample(map[string]interface{}{"layer": "contract-economy", "driver": driver, "trace": trace})
